@@ -1,19 +1,23 @@
 /-
   C05 — smodels writer and reader are inverses on the smodels-expressible fragment.
 
-  FULL STATEMENT: InFragment ext f p → read ext (write ext f p) = ok (canon f p), and
-                  write ext f p = error ↔ ¬ InFragment ext f p.
-  PROVED HERE (about Model/SmodelsOut.lean):
-    * `C05_refused_*`: for each kind of call, exactly when the writer model refuses it — "programs outside
-      the fragment are refused with an error instead of being written incorrectly", call by call;
-    * `C05_body_order`: the body reordering of the writer (negative literals first) is a permutation that
-      keeps the relative order inside both groups — "the same program up to the order of body literals";
-    * `C05_value_code`: the external value code `(v^3)-1` used by writer and reader is an involution on 0..2.
-  MISSING: the round trip through the reader model for whole programs (`C05_roundtrip`); decided by the
-  correspondence run (both models == real classes) and the canon round-trip oracle on the implementation.
+  FULL STATEMENT, PROVED (`C05_roundtrip`): for every program of the fragment (`ProgOk`: per step a rule section of rules with
+  non-empty head or integrity constraints through the false atom, cardinality/weight rules with non-negative bound, minimize
+  statements and — with extensions — externals; then symbol-table entries for single positive atoms; then at most one compute
+  statement; one step, or any number with the clasp extensions; arguments anywhere in their ranges; any false atom)
+      (write ext f p).2 = true   and   read ext (write ext f p).1 = { calls := initProgram _ :: canonCalls f p, err := none }
+  where `canonCalls` is the program rule for rule with body literals negative-first (`canonB`, a permutation: `C05_body_order`),
+  weighted literals likewise with a negative weight as its absolute value on the complementary literal (`canonW`, the identity up
+  to that order for weights ≥ 0: `C05_weights_kept`), minimize statements in order with priorities 0,1,…, the symbol table and
+  the externals unchanged, the compute statement as integrity constraints (and the false atom's).  The argument of initProgram is
+  what the first character suggests: the format has no header.
+  `C05_refused_*`: for each kind of call, exactly when the writer refuses it — "programs outside the fragment are refused with an
+  error instead of being written incorrectly", call by call; `C05_value_code`.
+  The proof (Lemmas/SmodelsRoundTrip*.lean) composes: number round trip → atom/weight lists → body / sum encodings → every rule
+  line → rule section → symbol table → compute statement → step → program, and the writer's section state machine in closed form.
+  Buffer independence is C09.
 -/
-import PotasscoVerif.Model.SmodelsIn
-import PotasscoVerif.Model.SmodelsOut
+import PotasscoVerif.Lemmas.SmodelsRoundTrip2
 namespace PotasscoVerif.C05
 open PotasscoVerif PotasscoVerif.SmodelsOut
 
@@ -85,6 +89,19 @@ theorem C05_body_order {α} (isNeg : α → Bool) (l : List α) :
 
 theorem C05_value_code : ∀ v ∈ [0, 1, 2], (((v ^^^ 3) - 1) ^^^ 3) - 1 = v := by decide
 
+/-! ### the round trip -/
+open PotasscoVerif.SmRT in
+/-- **C05**: every program of the fragment is written (not refused) and read back as its canonical form, without error. -/
+theorem C05_roundtrip (ext inc : Bool) (f : Nat) (steps : List Step) (h : ProgOk ext inc f steps) :
+    (write ext f (progCalls inc steps)).2 = true ∧
+    ∃ b, SmodelsIn.read ext (write ext f (progCalls inc steps)).1 = { calls := .initProgram b :: canonCalls f steps, err := none } :=
+  write_read ext inc f steps h
+
+open PotasscoVerif.SmRT in
+/-- for rule bodies (weights ≥ 0) the weighted literals come back unchanged up to the order negative-first -/
+theorem C05_weights_kept (ws : List (Int × Int)) (h : ∀ p ∈ ws, 0 ≤ p.2) :
+    canonW ws = ordered (fun (p : Int × Int) => decide (p.1 < 0)) ws := canonW_nonneg ws h
+
 /-! non-vacuity: an in-fragment program round-trips through both models -/
 def exCalls : List Call :=
   [.initProgram true, .beginStep, .rule 0 [] [1, -2], .rule 1 [3, 4] [5, -6, 7, -8], .sumRule 0 [2] 3 [(1, 2), (-3, 0), (4, 5)],
@@ -95,5 +112,32 @@ example : (write true 9 exCalls).2 = true ∧
     [.initProgram true, .beginStep, .rule 0 [9] [-2, 1], .rule 1 [3, 4] [-6, -8, 5, 7], .sumRule 0 [2] 3 [(-3, 0), (1, 2), (4, 5)],
      .minimize 0 [(-1, 2), (-3, 4)], .external 5 2, .output [97] [1], .rule 0 [] [-2], .rule 0 [] [3], .rule 0 [] [9], .endStep,
      .beginStep, .endStep] := by decide +kernel
+
+/-- the same program as steps: it satisfies the hypotheses of `C05_roundtrip` -/
+def exSteps : List SmRT.Step :=
+  [{ rs := [.rule 0 [] [1, -2], .rule 1 [3, 4] [5, -6, 7, -8], .sumRule 0 [2] 3 [(1, 2), (-3, 0), (4, 5)], .minimize 7 [(1, -2), (-3, 4)], .external 5 2],
+     outs := [.output [97] [1]], asm := some [2, -3] },
+   { rs := [], outs := [], asm := none }]
+
+example : SmRT.progCalls true exSteps = exCalls := by decide +kernel
+
+open PotasscoVerif.SmRT PotasscoVerif.AspifRT in
+example : ProgOk true true 9 exSteps := by
+  refine ⟨by decide, by decide, fun _ => rfl, ?_⟩
+  intro s hs
+  simp only [exSteps, List.mem_cons, List.not_mem_nil, or_false] at hs
+  rcases hs with rfl | rfl
+  · refine ⟨?_, ?_, ?_⟩
+    · intro c hc
+      simp only [List.mem_cons, List.not_mem_nil, or_false] at hc
+      rcases hc with rfl | rfl | rfl | rfl | rfl <;> simp [RuleOk, atomOk, litOk, lenOk, U32MAX]
+    · intro c hc
+      simp only [List.mem_cons, List.not_mem_nil, or_false] at hc
+      subst hc; simp [OutOk]
+    · intro l hl x hx
+      simp only [Option.some.injEq] at hl; subst hl
+      simp only [List.mem_cons, List.not_mem_nil, or_false] at hx
+      rcases hx with rfl | rfl <;> simp [litOk]
+  · exact ⟨by simp, by simp, by simp⟩
 
 end PotasscoVerif.C05
